@@ -10,7 +10,9 @@ RULE = ('power-loss model: histories with closed+dumped blobs and an active blob
         '(thorough: every byte of the tail record); validation on/off, ignore_corrupted on/off, key sizes 4/32; then init, '
         'all reads, counts, directory listing, further writes, restart, reads. The number of served records is compared '
         'with the Coq scan model (Blob/Scan.v blob_open_scan on the model\'s blob bytes). Kill mode: a child harness is '
-        'SIGKILLed at a random instant, a second process opens the directory and checks every acknowledged record. '
+        'SIGKILLed at a random instant, a second process opens the directory and checks every acknowledged record; '
+        'kill scripts: session dropped (no close, no byte lost) while an index file is older than its blob (restored active blob appended to, '
+        'deletion marker in a closed indexed blob before the deferred re-dump), then init and every read / counts compared with before. '
         'distinct by (cfg, number of tail records, cut class, outcome class)')
 ASSUMPTIONS = ['un-synced data is lost only as a suffix of a file; rename is atomic; the page cache survives a process kill',
                'kill mode samples kill instants (a real child process), it does not enumerate them']
@@ -91,6 +93,47 @@ def gen_power_script(rng, tier):
     return '\n'.join(L) + '\n', meta
 
 
+def gen_kill_script(rng):
+    """Process kill with the page cache intact (no byte is lost), at the instants where an index file on disk is
+    older than its blob: (a) the active blob was restored from a clean shutdown and appended to; (b) a deletion
+    marker went into a closed, indexed blob and the deferred re-dump has not run. Everything acknowledged must be
+    served after init exactly as before the kill."""
+    K = rng.choice([4, 32])
+    L = ['cfg K=%d dup=1 group=2 bloom=%s init=%s runtime=%s validate=%d' % (
+        K, rng.choice(['none', 'none', '3200000000000000020000000000000000020000000000000400000000000000fca9f1d24d62503f']),
+        rng.choice(['eager', 'eager', 'lazy']), rng.choice(['mt', 'ct']), rng.choice([0, 1])), 'open']
+    seed = 0
+    keys = []
+    def w(n, ts):
+        nonlocal seed
+        for _ in range(n):
+            seed += 1
+            k = (seed).to_bytes(K, 'big').hex()
+            keys.append(k)
+            L.append('W %s %d %s %d %d' % (k, ts, rng.choice(['-', 'm1']), rng.choice([1, 5, 40]), seed))
+    for b in range(rng.choice([0, 1, 2])):
+        w(rng.randrange(1, 4), 5)
+        L.append('close_active')
+    w(rng.randrange(1, 4), 5)
+    if rng.random() < 0.7:
+        L += ['close', 'open']              # clean shutdown: the active blob's index is on disk, then it is appended to
+        w(rng.randrange(1, 5), 6)
+    L.append('autoquiesce 0')
+    for k in rng.sample(keys, min(len(keys), rng.choice([0, 1, 2]))):
+        L.append('D %s %d - %d' % (k, rng.choice([3, 50]), rng.choice([0, 1, 1])))
+    L.append('#PRE')
+    for k in keys:
+        L.append('R %s' % k)
+    L.append('counts')
+    L.append('drop')
+    L.append('autoquiesce 1')
+    L.append('open')
+    for k in keys:
+        L.append('R %s' % k)
+    L.append('counts')
+    return '\n'.join(L) + '\n'
+
+
 METAS = {}
 
 
@@ -101,6 +144,8 @@ def gen(tier, rng):
         text, meta = gen_power_script(rng, tier)
         METAS[text] = meta
         out.append(('power%05d' % i, text))
+    for i in range(80 if tier == 'quick' else 2000):
+        out.append(('kill%05d' % i, gen_kill_script(rng)))
     return out
 
 
@@ -131,6 +176,23 @@ def oracle(lines, io, spec=None):
     fails = []
     if 'drop' not in lines:
         return fails
+    if not any(l.startswith('trunc blob') for l in lines):
+        # kill with the page cache intact: every answer after init equals the answer before the kill
+        fails = C.spec_oracle(lines, io, spec, ('R',))
+        d = lines.index('drop')
+        pre = {lines[i]: io[i] for i in range(d) if lines[i].startswith('R ') or lines[i] == 'counts'}
+        o = next((i for i in range(d, len(lines)) if lines[i] == 'open'), None)
+        if o is None or o >= len(io) or io[o] != 'open ok':
+            return fails + ['init failed after the kill: %s' % (io[o] if o is not None and o < len(io) else '-')]
+        for i in range(o + 1, min(len(lines), len(io))):
+            if lines[i].startswith('R ') and io[i] != pre.get(lines[i]):
+                fails.append('line %d `%s`: `%s` before the kill, `%s` after init' % (i, lines[i], pre.get(lines[i]), io[i]))
+            if lines[i] == 'counts' and 'counts' in pre:
+                a, b = io[i].split(), pre['counts'].split()
+                ra = [x for x in a if x.startswith('records=')]; rb = [x for x in b if x.startswith('records=')]
+                if ra != rb:
+                    fails.append('line %d: records_count %s before the kill, %s after init' % (i, rb, ra))
+        return fails[:6]
     m = recover_meta(lines)
     n, layout, fresh = m['n'], m['layout'], m['fresh']
     pre = {}
@@ -215,6 +277,8 @@ classify = C.default_classify
 def signature(lines, io):
     if 'drop' not in lines:
         return hash(tuple(lines[:3]))
+    if not any(l.startswith('trunc blob') for l in lines):
+        return C.ops_signature(lines, io)
     m = recover_meta(lines)
     n, layout = m['n'], m['layout']
     cls = 'pre' if n < 20 else 'boundary' if (n == 20 or any(e == n for (_, _, _, e) in layout)) else \
